@@ -51,9 +51,8 @@ CASES = {
     'layout':   {'entries': 2, 'alternatives': 1, 'no_version': True, 'archqual': True, 'ws_styles': 4, 'empty_entries': True, 'trailing_comma': True},
     'parts':    {'entries': 1, 'alternatives': 1, 'archs': 2, 'profile_groups': 1, 'profile_terms': 2, 'version_kinds': 2, 'ws_styles': 2},
     'substvar': {'entries': 2, 'alternatives': 1, 'substvars': True, 'version_kinds': 1, 'ws_styles': 1},
-    'sorting': {'entries': 2, 'alternatives': 2, 'version_kinds': 1, 'ws_styles': 1},
 }
-FULL = {
+FULL = {'sorting': {'entries': 2, 'alternatives': 2, 'version_kinds': 1, 'ws_styles': 1},
         'layout-v': {'entries': 2, 'alternatives': 1, 'archqual': True, 'version_kinds': 2, 'ws_styles': 4, 'empty_entries': True, 'trailing_comma': True},
         'parts2': {'entries': 1, 'alternatives': 1, 'archs': 2, 'profile_groups': 2, 'profile_terms': 2, 'version_kinds': 1, 'ws_styles': 2},
         'big': {'entries': 3, 'alternatives': 2, 'archqual': True, 'archs': 1, 'profile_groups': 1, 'version_kinds': 4, 'ws_styles': 2}}
